@@ -277,7 +277,7 @@ def _arith(a: Sym, b: Sym, op) -> Sym:
             if ac is not None:
                 return Sym(ac / bc, d=d)
             return Sym(a.e * rv(1 / bc), d=d) if bc != 1 else Sym(a.e, d=d)
-        i = Ctx.new_def("div", b.e != 0, f"denominator {_short(b.e)} != 0")
+        i = Ctx.new_def("div", b.e != 0, "denominator != 0")
         if ac is not None and ac == 0:
             return Sym(0, d=d | {i})
         return Sym(a.e / b.e, d=d | {i})
@@ -322,7 +322,7 @@ def slog(s):
     s = Sym.lift(s)
     if s.c is not None and s.c == 1:
         return Sym(0, d=s.d)
-    i = Ctx.new_def("log", s.e > 0, f"log argument {_short(s.e)} > 0")
+    i = Ctx.new_def("log", s.e > 0, "log argument > 0")
     return Sym(L(s.e), d=s.d | {i})
 
 
@@ -339,7 +339,7 @@ def ssqrt(s):
         r = math.isqrt(s.c.numerator), math.isqrt(s.c.denominator)
         if s.c >= 0 and r[0] ** 2 == s.c.numerator and r[1] ** 2 == s.c.denominator:
             return Sym(Fraction(r[0], r[1]), d=s.d)
-    i = Ctx.new_def("sqrt", s.e >= 0, f"sqrt argument {_short(s.e)} >= 0")
+    i = Ctx.new_def("sqrt", s.e >= 0, "sqrt argument >= 0")
     return Sym(SQ(s.e), d=s.d | {i})
 
 
@@ -1593,3 +1593,48 @@ def _zeval1(e, env, mp, memo):
     if dk == z3.Z3_OP_NOT: return not vals[0]
     if dk == z3.Z3_OP_TO_REAL: return vals[0]
     raise Unsupported(f"cannot evaluate z3 operator {e.decl().name()}")
+
+
+_AC_INTERN = {}
+
+
+def ac_key(e, memo=None):
+    """canonical id of a term modulo associativity/commutativity of + and * (equal ids <=> AC-equal terms);
+    hash-consed, linear in the size of the term DAG"""
+    memo = {} if memo is None else memo
+    st = [(e, False)]
+    while st:
+        t, done = st.pop()
+        i = t.get_id()
+        if i in memo:
+            continue
+        ch = t.children() if z3.is_app(t) else []
+        if not done and ch:
+            st.append((t, True))
+            for c in ch:
+                if c.get_id() not in memo:
+                    st.append((c, False))
+            continue
+        if z3.is_rational_value(t):
+            key = ("num", str(t.as_fraction()))
+        elif not ch:
+            key = ("atom", str(t))
+        else:
+            k = t.decl().kind()
+            if k in (z3.Z3_OP_ADD, z3.Z3_OP_MUL):
+                parts = []
+                stack = list(ch)
+                while stack:
+                    c = stack.pop()
+                    if z3.is_app(c) and c.decl().kind() == k and c.num_args() > 0 and not z3.is_rational_value(c):
+                        stack.extend(c.children())
+                        for cc in c.children():
+                            if cc.get_id() not in memo:
+                                ac_key(cc, memo)
+                    else:
+                        parts.append(memo[c.get_id()] if c.get_id() in memo else ac_key(c, memo))
+                key = (t.decl().name(), tuple(sorted(parts)))
+            else:
+                key = (t.decl().name(), tuple(memo[c.get_id()] for c in ch))
+        memo[i] = _AC_INTERN.setdefault(key, len(_AC_INTERN))
+    return memo[e.get_id()]
